@@ -24,7 +24,10 @@ fn expected_from_abbr(s: &str) -> Option<i8> {
 }
 
 fn check_abbr(s: &str) -> Verdict {
-    let got = SIPrefix::from_abbr(s).map(|p| p.exp());
+    let got = match catch(|| SIPrefix::from_abbr(s).map(|p| p.exp())) {
+        Ok(g) => g,
+        Err(p) => return Verdict::Fail(format!("from_abbr({:?}) panicked: {}", s, p)),
+    };
     let want = expected_from_abbr(s);
     if got != want {
         fail!("from_abbr({:?}) gives exponent {:?}, SI table says {:?}", s, got, want);
@@ -128,7 +131,13 @@ impl Property for C16 {
         })();
         sink.record(json!({"enumerated": "prefix table"}), v);
         for e in i8::MIN..=i8::MAX {
-            let got = SIPrefix::from_exp(e);
+            let got = match catch(|| SIPrefix::from_exp(e)) {
+                Ok(g) => g,
+                Err(p) => {
+                    sink.record(json!({"from_exp": e}), Verdict::Fail(format!("from_exp({}) panicked: {}", e, p)));
+                    continue;
+                }
+            };
             let want = SI_PREFIXES.iter().find(|r| r.3 == e);
             let v = match (got, want) {
                 (None, None) => pass("exp-miss", true),
